@@ -762,6 +762,19 @@ func (c *Ctx) closeAfterAnswer() {
 						case *ssa.Call:
 							if bi, ok := x.Call.Value.(*ssa.Builtin); ok && bi.Name() == "close" && isCh(x.Call.Args[0]) {
 								closed = true
+							} else if !ok {
+								// handed to a function or constructor (an operation object that carries the channel)
+								for _, a := range x.Call.Args {
+									if isCh(a) {
+										escapes = true
+									}
+								}
+							}
+						case *ssa.Go:
+							for _, a := range x.Call.Args {
+								if isCh(a) {
+									escapes = true
+								}
 							}
 						case *ssa.Defer:
 							if bi, ok := x.Call.Value.(*ssa.Builtin); ok && bi.Name() == "close" && isCh(x.Call.Args[0]) {
